@@ -3,5 +3,6 @@ CONSTANT Depth = 2
 CONSTANT DcShift = "0"
 CONSTANT Hook = TRUE
 CONSTANT Side = "client"
+CONSTANT Mms = 0
 INVARIANT Emit
 CHECK_DEADLOCK FALSE
